@@ -16,13 +16,15 @@ INTERNAL = 2000000000
 
 
 class Node:
-    __slots__ = ("id", "grid", "sets", "src", "qflag")
+    __slots__ = ("id", "grid", "sets", "srcs", "qflag")
 
     def __init__(self, id_, grid, sets, src=None):
         self.id = id_  # id in this SE
         self.grid = grid  # True: 6 DOF, False: scalar point
         self.sets = sets  # one base-set letter per DOF
-        self.src = src  # (child se, index of the node among the child's a-set nodes) or None
+        # (child se, index of the node among the child's a-set nodes): empty for an own node, two entries for a
+        # boundary grid that two upstream SEs are attached to
+        self.srcs = [src] if src else []
         self.qflag = None  # per DOF: expected upqsetpv flag in this SE's table
 
     def dofs(self):
@@ -36,27 +38,42 @@ def _in_a(letter):
     return letter in A_LETTERS
 
 
-def gen_tree(rng, max_up=4):
+SE_IDS = [10, 20, 30, 40, 75, 101, 102, 300, 55, 66, 77, 88]
+
+
+def gen_tree(rng, max_up=None, deep=None):
+    """a random superelement tree below the residual 0: depth <= 4, at most 3 upstream SEs per SE;
+    `deep` forces a chain of that depth (so that every run sees multi-level recursion)"""
+    if max_up is None:
+        max_up = rng.choice([1, 2, 3, 4, 4, 5, 6, 7])
     n_up = rng.randint(1, max_up)
-    se_ids = rng.sample([10, 20, 30, 40, 75, 101, 102, 300], n_up)
+    if deep:
+        n_up = max(n_up, deep)
+    se_ids = rng.sample(SE_IDS, n_up)
     parent, order = {}, []
     depth = {0: 0}
-    for s in se_ids:
-        cands = [0] + [o for o in order if depth[o] < 2]
-        p = rng.choice(cands) if rng.random() < 0.45 else 0
+    nchild = {0: 0}
+    for k, s in enumerate(se_ids):
+        if deep and k < deep:
+            p = order[-1] if order else 0  # the forced chain
+        else:
+            cands = [o for o in [0] + order if depth[o] < 4 and nchild[o] < 3]
+            p = rng.choice(cands) if rng.random() < 0.6 else (0 if nchild[0] < 3 else rng.choice(cands))
         parent[s] = p
         depth[s] = depth[p] + 1
+        nchild[p] += 1
+        nchild[s] = 0
         order.append(s)
     return order, parent
 
 
-def gen_nas(rng, style=None):
+def gen_nas(rng, style=None, deep=None):
     """returns (nas dict for pyyeti, info) ; info holds the construction knowledge"""
     from pyyeti.nastran import n2p
 
     masks = n2p.mkusetmask()
     style = style or rng.choice(["csuper", "csuper", "csuper-reorder", "seconct", "mixed", "notall6", "noq"])
-    order, parent = gen_tree(rng)
+    order, parent = gen_tree(rng, deep=deep)
     children = {s: [c for c in order if parent[c] == s] for s in order + [0]}
     tables = {}  # se -> list of Node in table order
     asetnodes = {}  # se -> list of Node (a-set nodes in table order)
@@ -64,6 +81,7 @@ def gen_nas(rng, style=None):
     kind_of = {}  # child -> 'csuper' | 'seconct'
     internal = [INTERNAL]
     skipped = {}  # child -> set of (a-set dof index) skipped by maps (notall6)
+    shared = [0]  # boundary grids shared by two upstream SEs
 
     for s in list(reversed(order)) + [0]:
         nodes = []
@@ -95,6 +113,18 @@ def gen_nas(rng, style=None):
             kind_of[c] = ck
             grp = []
             for k, cn in enumerate(asetnodes[c]):
+                # a boundary grid shared with another (CSUPER type) upstream SE of `s`: both are attached to one
+                # grid of `s`; only own grids of the upstream SEs are shared, so the shared DOF never carry a flag
+                if cn.grid and ck == "csuper" and not cn.srcs and rng.random() < 0.25:
+                    cands = [n for (c2, g2) in inherited if kind_of[c2] == "csuper" for n in g2
+                             if n.grid and all(not asetnodes[c3][k3].srcs for c3, k3 in n.srcs)]
+                    cands = [n for n in cands if all(n is not m for m in grp)]
+                    if cands:
+                        nd = rng.choice(cands)
+                        nd.srcs.append((c, k))
+                        grp.append(nd)
+                        shared[0] += 1
+                        continue
                 keep_id = rng.random() < 0.5 and cn.id not in used
                 nid = cn.id if keep_id else fresh()
                 used.add(nid)
@@ -120,6 +150,12 @@ def gen_nas(rng, style=None):
                 table.extend(g2)
         if style in ("csuper-reorder", "mixed") and rng.random() < 0.3:
             rng.shuffle(table)
+        seen_nodes, t2 = set(), []
+        for n in table:  # a shared boundary grid is one node of the table
+            if id(n) not in seen_nodes:
+                seen_nodes.add(id(n))
+                t2.append(n)
+        table = t2
         tables[s] = table
         asetnodes[s] = [n for n in table if any(_in_a(l) for l in n.sets)]
         # rows of the table
@@ -191,7 +227,7 @@ def gen_nas(rng, style=None):
                 q = [a or fc[(cn.id, d)] for a, (cn, d, _) in zip(q, arows)]
             if not any(q):
                 continue
-            grp = dict(inh for inh in [(n.src[1], n) for n in tables[s] if n.src and n.src[0] == c])
+            grp = {k: n for n in tables[s] for (cc, k) in n.srcs if cc == c}
             k_of = {id(cn): k for k, cn in enumerate(asetnodes[c])}
             for a, (cn, d, _) in zip(q, arows):
                 flags[(grp[k_of[id(cn)]].id, d)] = a
@@ -207,7 +243,7 @@ def gen_nas(rng, style=None):
             for d in n.dofs():
                 rowpos[(n.id, d)] = r
                 r += 1
-        grp = {n.src[1]: n for n in tables[s] if n.src and n.src[0] == c}
+        grp = {k: n for n in tables[s] for (cc, k) in n.srcs if cc == c}
         exp, j = [], 0
         for k, cn in enumerate(asetnodes[c]):
             for d, l in zip(cn.dofs(), cn.sets):
@@ -237,7 +273,13 @@ def gen_nas(rng, style=None):
         "maps": maps,
         "upids": upids_d,
     }
+    dep = {0: 0}
+    for c in order:
+        dep[c] = dep[parent[c]] + 1
+    # a connection is "re-ordered and flagged" when its maps is a true permutation and it carries a True flag
+    reordered = [c for c in order if len(maps[c]) and [int(r[0]) for r in maps[c]] != sorted(int(r[0]) for r in maps[c])]
     info = {"style": style, "order": order, "parent": parent, "expected_upa": exp_a, "expected_upq": exp_qv,
+            "depth": max(dep.values()), "shared": shared[0], "children": {s: list(v) for s, v in children.items()}, "reordered": reordered,
             "skipped": {c: sorted(v) for c, v in skipped.items()}, "notall6_q_mismatch": False}
     return nas, info
 
@@ -261,7 +303,8 @@ def _boundary_rows(nas, c):
 
 
 DAMAGES = ["maps-scale", "maps-range", "maps-neg", "drop-dnid", "extra-dnid", "del-uset", "del-dnids", "del-maps",
-           "del-upids", "selist-drop", "upids-short", "maps-short", "maps-perm", "dup-dnid", "selist-dup"]
+           "del-upids", "selist-drop", "upids-short", "maps-short", "maps-perm", "dup-dnid", "selist-dup",
+           "selist-cycle"]
 
 
 def damage(rng, nas, what=None):
@@ -319,6 +362,14 @@ def damage(rng, nas, what=None):
     elif what == "selist-dup":
         r = n["selist"][rng.randrange(len(n["selist"]))].copy()
         n["selist"] = np.vstack([n["selist"], r])
+    elif what == "selist-cycle":
+        # an upstream SE becomes the downstream SE of its own downstream SE (a 2-cycle), or of the residual
+        sl = n["selist"].tolist()
+        deep = [r for r in sl if r[0] != r[1] and r[1] != 0]
+        r = rng.choice(deep) if deep and rng.random() < 0.8 else rng.choice([x for x in sl if x[0] != x[1]])
+        k = rng.randint(0, len(sl))
+        n["selist"] = np.array(sl[:k] + [[r[1], r[0]]] + sl[k:], dtype=np.int64)
+        c = r[0]
     elif what == "upids-short":
         k = rng.choice(list(n["upids"]))
         if len(n["upids"][k]):
